@@ -56,6 +56,7 @@ type ExploreResult struct {
 	FmtApprox   int
 	LocalSat    int
 	StandaloneQ, StandaloneOK int
+	XCheckN, XCheckAgree, XCheckDisagree, XCheckUndecided int
 	StandaloneT time.Duration
 	WaitT, RunT time.Duration
 	LocalUnsat  int
@@ -203,6 +204,10 @@ func Explore(p *Program, cfg ExploreConfig) *ExploreResult {
 		res.FmtApprox += ex.fmtApprox
 		res.LocalSat += ex.localSat
 		res.StandaloneQ += ex.standaloneQ
+		res.XCheckN += ex.xcheckN
+		res.XCheckAgree += ex.xcheckAgree
+		res.XCheckDisagree += ex.xcheckDisagree
+		res.XCheckUndecided += ex.xcheckUndecided
 		res.StandaloneOK += ex.standaloneOK
 		res.StandaloneT += ex.standaloneT
 		res.LocalUnsat += ex.localUnsat
